@@ -1161,6 +1161,14 @@ package gedcom
 //@ func IndividualNode.Similarity
 //@   props C12
 //@   opaque IndividualNode.Names, IndividualNode.EstimatedBirthDate, IndividualNode.EstimatedDeathDate, NameNode.String
+// the name score is the best over ALL pairs of names (no pair is skipped, no
+// early exit: otherwise the score depends on which side's names come first)
+//@   ghost sim real = 0.0
+//@   oncall StringSimilarity check with-the-options: arg2 == options.JaroBoostThreshold && arg3 == options.JaroPrefixSize
+//@   oncall StringSimilarity do sim = result
+//@   loop 2 iter keeps-the-better: nameSimilarity == ite(sim > old(nameSimilarity), sim, old(nameSimilarity))
+//@   loop 1 nobreak
+//@   loop 2 nobreak
 //@   loop 1 invariant best-so-far: 0.0 <= nameSimilarity && implies(options.JaroPrefixSize <= 10, nameSimilarity <= 1.000000000000001)
 //@   loop 2 invariant best-so-far: 0.0 <= nameSimilarity && implies(options.JaroPrefixSize <= 10, nameSimilarity <= 1.000000000000001)
 //@   ensures neutral: implies(node == nil || other == nil, result == 0.5)
@@ -1693,6 +1701,69 @@ package gedcom
 //@   loop 1 iter every-child-once: nTrav == old(nTrav) + 1
 //@   loop 1 iter new-entry-kept: implies(nd != nil && made != old(made), len(nd.Children) >= 1 && nd.Children[len(nd.Children)-1] == made)
 //@   loop 1 nobreak
+
+// C07 (the shallow equality rules that DeepEqual consults, kind by kind).
+// A plain node equals another node iff neither is nil and tag, value and
+// pointer agree (what the other node REPORTS through the interface). Birth,
+// baptism, burial and death events equal any event of their own kind. A
+// generic event without dates on either side and with the same value defers
+// to the ORDER-FREE comparison of the two child lists (DeepEqualNodes on
+// exactly node.Nodes() and node2.Nodes()); the answer is then that one.
+//@ func SimpleNode.Equals
+//@   props C07
+//@   ghost T2 string = ""
+//@   ghost V2 string = ""
+//@   ghost P2 string = ""
+//@   ghost nT int = 0
+//@   ghost nV int = 0
+//@   ghost nP int = 0
+//@   oncall Node.Tag check of-the-other: arg0 == node2
+//@   oncall Node.Tag do T2 = result.tag; nT = nT + 1
+//@   oncall Node.Value check of-the-other: arg0 == node2
+//@   oncall Node.Value do V2 = result; nV = nV + 1
+//@   oncall Node.Pointer check of-the-other: arg0 == node2
+//@   oncall Node.Pointer do P2 = result; nP = nP + 1
+//@   ensures nil-never-equal: implies(node == nil || tag(node2) == 0 || data(node2) == 0, !result)
+//@   ensures equal-means-all-three-agree: implies(result, nT == 1 && nV == 1 && nP == 1 && node.tag.tag == T2 && node.value == V2 && node.pointer == P2)
+//@   ensures different-value-or-pointer-never-equal: implies(nV == 1 && node.value != V2, !result) && implies(nP == 1 && node.pointer != P2, !result)
+//@ func BirthNode.Equals
+//@   props C07
+//@   ensures same-kind: result == (node != nil && typeis(node2, "*gedcom.BirthNode") && data(node2) != 0)
+//@ func BaptismNode.Equals
+//@   props C07
+//@   ensures same-kind: result == (node != nil && typeis(node2, "*gedcom.BaptismNode") && data(node2) != 0)
+//@ func BurialNode.Equals
+//@   props C07
+//@   ensures same-kind: result == (node != nil && typeis(node2, "*gedcom.BurialNode") && data(node2) != 0)
+//@ func DeathNode.Equals
+//@   props C07
+//@   ensures same-kind: result == (node != nil && typeis(node2, "*gedcom.DeathNode") && data(node2) != 0)
+//@ func EventNode.Equals
+//@   props C07
+//@   ghost nL int = 0 - 1
+//@   ghost nR int = 0 - 1
+//@   ghost vL string = ""
+//@   ghost vR string = ""
+//@   ghost nVal int = 0
+//@   ghost kidsL slice
+//@   ghost kidsR slice
+//@   ghost kids bool = false
+//@   ghost nKids int = 0
+//@   opaque EventNode.Dates, DeepEqualNodes, DateNode.Equals
+//@   ghost nD int = 0
+//@   oncall EventNode.Dates check of-one-of-the-two: arg0 == node || arg0 == data(node2)
+//@   oncall EventNode.Dates when nD == 0 do nL = len(result)
+//@   oncall EventNode.Dates when nD == 1 do nR = len(result)
+//@   oncall EventNode.Dates do nD = nD + 1
+//@   oncall SimpleNode.Value do vL = result; nVal = nVal + 1
+//@   oncall Node.Value do vR = result; nVal = nVal + 1
+//@   oncall SimpleNode.Nodes do kidsL = result
+//@   oncall Node.Nodes do kidsR = result
+//@   oncall DeepEqualNodes check the-two-child-lists-of-undated-events: nL == 0 && nR == 0 && ((arg0 == kidsL && arg1 == kidsR) || (arg0 == kidsR && arg1 == kidsL))
+//@   oncall DeepEqualNodes do kids = result; nKids = nKids + 1
+//@   ensures nil-never-equal: implies(node == nil || tag(node2) == 0 || data(node2) == 0, !result)
+//@   ensures undated-events-compare-their-children-as-sets: implies(nL == 0 && nR == 0 && nVal == 2 && vL == vR, nKids == 1 && result == kids)
+//@   ensures undated-events-with-different-values-differ: implies(nL == 0 && nR == 0 && nVal == 2 && vL != vR, !result)
 
 // C07 (what a copy is made of): the copy of one node is made by the node
 // constructor from exactly the tag, the value and the pointer the source
